@@ -381,3 +381,49 @@ pub fn run_handshake(body: &[Sexp]) -> String {
   }
   "ok".into()
 }
+
+/// (guard_unwind): a guard obtained from unsubscribe_when_dropped() that is dropped because its scope is left by a panic
+/// (caught further up) unsubscribes like any other drop: the subscriber stays silent afterwards.  Local and thread-safe subject.
+pub fn run_guard_unwind(_body: &[Sexp]) -> String {
+  use std::panic::{catch_unwind, AssertUnwindSafe};
+  {
+    let subject: SubjectThreads<i32, ()> = SubjectThreads::default();
+    let hits = Arc::new(AtomicUsize::new(0));
+    let h = hits.clone();
+    let s2 = subject.clone();
+    let r = catch_unwind(AssertUnwindSafe(move || {
+      let _guard = s2
+        .on_error(|_: ()| {})
+        .subscribe(move |_: i32| {
+          h.fetch_add(1, Ordering::SeqCst);
+        })
+        .unsubscribe_when_dropped();
+      panic!("the scope that owns the guard is left by a panic");
+    }));
+    if r.is_ok() {
+      return "the scope did not panic".into();
+    }
+    subject.clone().next(1);
+    if hits.load(Ordering::SeqCst) > 0 {
+      return "SubjectThreads: the subscriber was called after its guard had been dropped by unwinding".into();
+    }
+  }
+  {
+    let subject: Subject<'static, i32, ()> = Subject::default();
+    let hits = std::rc::Rc::new(std::cell::Cell::new(0usize));
+    let h = hits.clone();
+    let s2 = subject.clone();
+    let r = catch_unwind(AssertUnwindSafe(move || {
+      let _guard = s2.on_error(|_: ()| {}).subscribe(move |_: i32| h.set(h.get() + 1)).unsubscribe_when_dropped();
+      panic!("the scope that owns the guard is left by a panic");
+    }));
+    if r.is_ok() {
+      return "the scope did not panic".into();
+    }
+    subject.clone().next(1);
+    if hits.get() > 0 {
+      return "Subject: the subscriber was called after its guard had been dropped by unwinding".into();
+    }
+  }
+  "ok".into()
+}
